@@ -531,18 +531,186 @@ def r7(ctx):
     if n == 0: rep.broken('C20.R7: no function that installs a new input file name was found (set_input_file vanished?)')
     return n
 
+# ------------------------------------------------------------------ R8
+
+class PathEval:
+    """per-path variant of c19.RegionEval: evaluates one action region of flexscan and returns, for every path through it,
+    the ordered list of calls (callee, args) it makes.  Branches on symbolic values fork; loops are cut by a step cap."""
+    def __init__(s, prog, fn, stop):
+        import c19
+        s.ev = c19.RegionEval(prog, fn, {}, stop); s.fn = fn; s.prog = prog; s.stop = stop
+        s.paths = []; s.steps = 0; s.Unknown = c19.Unknown
+    def run(s, blk):
+        s._go(blk, None, {}, {}, ())
+        return s.paths
+    def _go(s, blk, prev, regs, mem, trace):
+        ev = s.ev
+        seen = {}
+        while True:
+            s.steps += 1
+            if s.steps > 6000 or len(s.paths) > 400: raise s.Unknown('region too large')
+            seen[blk.name] = seen.get(blk.name, 0) + 1
+            if seen[blk.name] > 2: return          # loop inside an action: not followed further (no quote is added in a loop, checked by the caller)
+            if s.stop(blk, None): s.paths.append((trace, 'end')); return
+            nxt = None
+            for x in blk.ins:
+                op = x.op
+                if op == 'phi':
+                    for v, lab in zip(x.ops, x.cases):
+                        if prev is not None and lab == prev.name: regs[x.res] = ev.val(v, regs)
+                elif op == 'load':
+                    k = ev.lkey(x.ops[0]); regs[x.res] = mem.get(k, ('sym', k))
+                elif op == 'store':
+                    k = ev.lkey(x.ops[1]); v = ev.val(x.ops[0], regs); mem[k] = v
+                    trace = trace + (('store', k, v),)
+                elif op in ('trunc', 'zext', 'sext', 'bitcast', 'ptrtoint', 'inttoptr'):
+                    regs[x.res] = ev.val(x.ops[0], regs)
+                elif op in ('xor', 'and', 'or', 'add', 'sub', 'mul'):
+                    a = ev.val(x.ops[0], regs); b = ev.val(x.ops[1], regs)
+                    if isinstance(a, int) and isinstance(b, int):
+                        regs[x.res] = {'xor': a ^ b, 'and': a & b, 'or': a | b, 'add': a + b, 'sub': a - b, 'mul': a * b}[op]
+                    else: regs[x.res] = ('sym', op)
+                elif op == 'icmp':
+                    a = ev.val(x.ops[0], regs); b = ev.val(x.ops[1], regs)
+                    if isinstance(a, int) and isinstance(b, int):
+                        regs[x.res] = int({'eq': a == b, 'ne': a != b, 'sgt': a > b, 'slt': a < b, 'sge': a >= b, 'sle': a <= b, 'ugt': a > b, 'ult': a < b, 'uge': a >= b, 'ule': a <= b}[x.pred])
+                    else: regs[x.res] = ('sym', 'cmp')
+                elif op in ('getelementptr', 'alloca'):
+                    regs[x.res] = ('addr', ir.loc_str(ev.res.loc(('reg', x.res))))
+                elif op in ('call', 'invoke'):
+                    cal = x.callee if isinstance(x.callee, str) else '?'
+                    args = tuple(ev.val(a, regs) for a in x.ops)
+                    trace = trace + (('call', cal, args),)
+                    if cal in s.prog.noreturn(): s.paths.append((trace, 'fatal')); return
+                    if x.res: regs[x.res] = ('sym', cal + '()')
+                elif op == 'br':
+                    if not x.ops: nxt = s.fn.bmap[x.targets[0]]
+                    else:
+                        c = ev.val(x.ops[0], regs)
+                        if isinstance(c, int): nxt = s.fn.bmap[x.targets[0] if c else x.targets[1]]
+                        else:
+                            for t_ in x.targets: s._go(s.fn.bmap[t_], blk, dict(regs), dict(mem), trace)
+                            return
+                elif op == 'switch':
+                    s.paths.append((trace, 'switch')); return
+                elif op == 'ret':
+                    s.paths.append((trace, 'ret')); return
+                elif op == 'unreachable':
+                    s.paths.append((trace, 'fatal')); return
+                else:
+                    if x.res: regs[x.res] = ('sym', op)
+            if nxt is None: s.paths.append((trace, 'end')); return
+            prev = blk; blk = nxt
+
+QOPEN, QCLOSE = '[' + '[', ']' + ']'
+
+def _qd(text):
+    """m4 reads the quote delimiters left to right, two characters at a time"""
+    i = 0; d = 0
+    while i < len(text):
+        two = text[i:i + 2]
+        if two == QOPEN: d += 1; i += 2
+        elif two == QCLOSE: d -= 1; i += 2
+        else: i += 1
+    return d
+
+def quote_delta(trace):
+    """net number of m4 quotes opened on each channel by the constant strings the path appends"""
+    d = {'action_array': 0, 'top_buf': 0}
+    for t in trace:
+        if t[0] != 'call': continue
+        cal, args = t[1], t[2]
+        if cal == 'add_action' and args and isinstance(args[0], tuple) and args[0][0] == 'str':
+            d['action_array'] += _qd(args[0][1])
+        if cal in ('buf_strappend', 'buf_strnappend') and len(args) >= 2 and isinstance(args[1], tuple) and args[1][0] == 'str' \
+           and isinstance(args[0], tuple) and 'top_buf' in str(args[0]):
+            d['top_buf'] += _qd(args[1][1])
+    return d
+
+def r8(ctx, sp):
+    """R8: m4 quotes are balanced over the start conditions that copy user text.  For every start condition S of scan.l
+    that is entered with yy_push_state: all action paths that push S open the same number d(S) of quotes on a channel
+    (action_array, top_buf); every path of a rule active in S that pops closes exactly d(S); every other path of a rule
+    active in S that neither pushes nor ends in a fatal error leaves the quote depth unchanged.  An unbalanced path leaves
+    the rest of the user's file inside (or outside) an m4 quote: it is mangled or swallowed, with exit status 0."""
+    rep = ctx.rep; prog = ctx.flex
+    fs = prog.fn('flexscan')
+    sw = max([x for x in fs.ins if x.op == 'switch'], key=lambda x: len(x.cases))
+    scnum = {i: n for i, n in enumerate(sp.sc_order)}
+    rules = [r for r in sp.rules if not r.is_eof]
+    paths_of = {}
+    for k, r in enumerate(rules, 1):
+        tgt = [lab for cv, lab in sw.cases if cv == k]
+        if not tgt: rep.broken('C20.R8: flexscan has no case %d for scan.l:%d' % (k, r.line))
+        others = {fs.bmap[lab] for cv, lab in sw.cases if lab != tgt[0]}
+        pe = PathEval(prog, fs, lambda bb, st, others=others: bb.name.startswith('sw.epilog') or bb in others)
+        try: paths_of[k] = pe.run(fs.bmap[tgt[0]])
+        except pe.Unknown: paths_of[k] = None
+    def pushes(trace): return [scnum.get(t[2][0]) for t in trace if t[0] == 'call' and t[1] == 'yy_push_state' and t[2] and isinstance(t[2][0], int)]
+    def pops(trace): return any(t[0] == 'call' and t[1] == 'yy_pop_state' for t in trace)
+    def fatal(trace, how): return how == 'fatal' or any(t[0] == 'call' and t[1] in ('synerr', 'format_synerr', 'flexfatal', 'flexerror', 'lerr') for t in trace)
+    d_in = {}; sites = {}
+    for k, r in enumerate(rules, 1):
+        for trace, how in paths_of[k] or ():
+            for S in pushes(trace):
+                d = quote_delta(trace)
+                d_in.setdefault(S, set()).add((d['action_array'], d['top_buf'])); sites.setdefault(S, []).append(r)
+    if len(d_in) < 5: rep.broken('C20.R8: only %d pushed start conditions found in the IR of flexscan (7 confirmed)' % len(d_in))
+    n = 0
+    for S in sorted(d_in):
+        if len(d_in[S]) != 1:
+            n += 1
+            rep.fail('C20.R8', 'C20.R8:scan.l:%s:entered-with-different-quote-depths' % S, 'scan.l:%d' % sites[S][0].line,
+                     'start condition %s is pushed by paths that open different numbers of m4 quotes %s: its closing rule cannot be right for all of them' % (S, sorted(d_in[S])))
+            continue
+        din = next(iter(d_in[S]))
+        for k, r in enumerate(rules, 1):
+            if r.scs == ['*'] or not r.active_in(S, sp): continue
+            if paths_of[k] is None: rep.note('C20.R8 scan.l:%d: action not evaluable' % r.line); continue
+            n += 1
+            bad = None
+            for trace, how in paths_of[k]:
+                if fatal(trace, how) or pushes(trace): continue
+                d = quote_delta(trace); dd = (d['action_array'], d['top_buf'])
+                want = (-din[0], -din[1]) if pops(trace) else (0, 0)
+                if dd != want: bad = (dd, want, pops(trace)); break
+            key = 'C20.R8:scan.l:%s:%s:unbalanced-quote' % (S, r.pat)
+            if bad:
+                rep.fail('C20.R8', key, 'scan.l:%d <%s>' % (r.line, S),
+                         'rule %r %s start condition %s on a path whose appended text changes the m4 quote depth (action buffer, %%top buffer) by %s; %s entered with %s, so it must change it by %s: '
+                         'everything copied afterwards is inside or outside the wrong quote' % (r.pat, 'leaves' if bad[2] else 'stays in', S, bad[0], S, din, bad[1]))
+            else:
+                rep.ok('C20.R8', '<%s> scan.l:%d %r: every path keeps the quote depth (pop paths close the %s opened on entry)' % (S, r.line, r.pat, din))
+    # (b) in any start condition: a path that stays where it is (no BEGIN, push or pop, no return to the parser, no fatal
+    # error) must leave the quote depth as it found it
+    def begins(trace): return any(t[0] == 'store' and t[1].endswith('yy_start') for t in trace)
+    for k, r in enumerate(rules, 1):
+        if paths_of[k] is None: continue
+        stay = [(trace, how) for trace, how in paths_of[k] if how == 'end' and not fatal(trace, how) and not pushes(trace) and not pops(trace) and not begins(trace)]
+        if not stay: continue
+        n += 1
+        bad = [quote_delta(t) for t, h in stay if any(quote_delta(t).values())]
+        scs = ','.join(r.scs) if r.scs else 'INITIAL'
+        if bad:
+            rep.fail('C20.R8', 'C20.R8:scan.l:%s:%s:stays-with-unbalanced-quote' % (scs, r.pat), 'scan.l:%d <%s>' % (r.line, scs),
+                     'rule %r has a path that stays in its start condition but changes the m4 quote depth by %s: everything copied afterwards is inside or outside the wrong quote' % (r.pat, bad[0]))
+        else:
+            rep.ok('C20.R8', 'scan.l:%d <%s> %r: %d path(s) that stay in the start condition leave the quote depth unchanged' % (r.line, scs, r.pat, len(stay)))
+    return n
+
 def run(ctx):
     rep = ctx.rep
     sp = lex.parse_spec(ctx.art.source('scan.l'))
     rep.require(len(sp.rules) >= 250, 'scan.l model has only %d rules' % len(sp.rules))
     rep.setcount('scan_l_rules', len(sp.rules))
-    r1(ctx); r2(ctx, sp); r3(ctx, sp); r4(ctx); r5(ctx, sp); r6(ctx, sp); r7(ctx)
+    r1(ctx); r2(ctx, sp); r3(ctx, sp); r4(ctx); r5(ctx, sp); r6(ctx, sp); r7(ctx); r8(ctx, sp)
     rep.floor('C20.R1', 2, 'line_directive_out + the %top trampoline')
     rep.floor('C20.R2', 60, 'raw-echo rule x copying start condition pairs')
     rep.floor('C20.R3', 8, 'entry rules + 2 cross-module openers + section 3')
     rep.floor('C20.R4', 1, 'lineno in filter_fix_linedirs')
     rep.floor('C20.R6', 6, 'pushed start conditions of scan.l')
     rep.floor('C20.R7', 1, 'set_input_file')
+    rep.floor('C20.R8', 150, 'rules active in the 7 pushed start conditions + rules with a path that stays in its start condition')
     rep.floor('C20.R5', 250, 'one obligation per non-EOF rule of scan.l')
     rep.undecided += ['byte-for-byte equality of copied text for all contents', 'correctness of each linenum value passed to line_directive_out',
                       'm4 macro names and $n inside user text (protected by the quotes checked here)']
